@@ -322,14 +322,15 @@ def outcome_edges(body, pred, close=True):
     return succ, fail
 
 
-def call_outcome_edges(body, site):
-    """(success, failure) edges of the tests of the result of the call at `site`."""
-    return outcome_edges(body, lambda v: v[0] == "call" and v[3] == site.bb and v[1] not in ("ok", "ready"))
+def call_outcome_edges(body, site, close=True):
+    """(success, failure) edges of the tests of the result of the call at `site` (close=False: only the edges of the
+    tests themselves, for path counting from them)."""
+    return outcome_edges(body, lambda v: v[0] == "call" and v[3] == site.bb and v[1] not in ("ok", "ready", "not_err"), close)
 
 
-def truth_edges(body, pred):
+def truth_edges(body, pred, close=True):
     """(true_edges, false_edges) of switches on a bool value V with pred(V) (looking through `!`), closed under
-    bool hoisting (`let ok = V; if ok ..`)."""
+    bool hoisting (`let ok = V; if ok ..`) unless close=False (then: only the edges of the tests themselves)."""
     te, fe = set(), set()
     for bi in body.live:
         info = body.switch_info(bi)
@@ -348,6 +349,9 @@ def truth_edges(body, pred):
                 truth = ("true" in ls) != neg
                 (te if truth else fe).add((bi, tgt))
 
+    if not close:
+        return te, fe
+
     def hp(want):
         def p(e, r, lab):
             c, neg = e, False
@@ -365,7 +369,7 @@ def truth_edges(body, pred):
 _FLIP = {"lt": "gt", "le": "ge", "gt": "lt", "ge": "le", "eq": "eq", "ne": "ne"}
 _NEG = {"lt": "ge", "le": "gt", "gt": "le", "ge": "lt", "eq": "ne", "ne": "eq"}
 _OPS = {"Lt": "lt", "Le": "le", "Gt": "gt", "Ge": "ge", "Eq": "eq", "Ne": "ne"}
-_ORD_CALL = re.compile(r"(?:^|::)(?:PartialOrd(?:<[^>]*>)?>?|PartialEq(?:<[^>]*>)?>?|cmp::impls(?:::<[^>]*>)?)::(lt|le|gt|ge|eq|ne)$")
+_ORD_CALL = re.compile(r"(?:^|::)(?:PartialOrd(?:<[^>]*>)?>?|PartialEq(?:<[^>]*>)?>?|cmp::impls(?:::<[^>]*>)?|partial_eq|equality|slice::cmp)::(lt|le|gt|ge|eq|ne)$")
 
 
 def cmp_of(cond):
